@@ -340,6 +340,7 @@ def method(name, params, body):
     raise Untranslatable("method %s is not one the model knows" % name)
 
 
+EXTRA_METHODS = []
 EXPECTED = ["new_from_iter", "new_from_iter_with_state", "new", "new_with_state", "next", "peek", "backtrack",
             "reset_accepting_state", "set_accepting_state", "reset_match", "match_", "match_loc", "state"]
 
@@ -347,8 +348,13 @@ EXPECTED = ["new_from_iter", "new_from_iter_with_state", "new", "new_with_state"
 def generate(src):
     fns = functions(src)
     fns.pop("map_token", None)
-    if sorted(fns) != sorted(EXPECTED):
-        raise Untranslatable("lexgen_util::Lexer has methods %s, the model knows %s" % (sorted(fns), sorted(EXPECTED)))
+    missing = sorted(set(EXPECTED) - set(fns))
+    if missing:
+        raise Untranslatable("lexgen_util::Lexer no longer has the methods %s" % missing)
+    # further methods are not called by the generated code (harness/gencode.py pins every call it makes) and are
+    # ignored - except a hand-written `clone`: the model's lexer value is copied field by field (#[derive(Clone)])
+    global EXTRA_METHODS
+    EXTRA_METHODS = sorted(set(fns) - set(EXPECTED))
     out = ["(* GENERATED by harness/gen_util.py from crates/lexgen_util/src/lib.rs: the methods of `Lexer`, translated",
            "   statement by statement. theories/GenUtilProofs.v proves each equal to the operation Runtime.v uses. *)",
            "From LexVerif Require Import Base CharClass RangeMap Regex Nfa Dfa Codegen LexSpec Runtime.", "",
